@@ -17,7 +17,7 @@ int snoopy_filtering_check_chain(char const * const filterChain);
 
 #define MAXT 64
 static struct { long pid; vbytes content; } tab[MAXT];
-static int ntab, active, threaded;
+static int ntab, active, threaded, force_errno;   /* force_errno: value errno has when a served open returns successfully (a successful call may leave any value) */
 static long syn_self, syn_ppid;
 static long opened[256]; static int nopened;
 
@@ -49,7 +49,9 @@ static int serve(long pid) {
 }
 FILE *__wrap_fopen(const char *path, const char *mode) {
     long pid; if (!stat_path(path, &pid)) return __real_fopen(path, mode);
-    int fd = serve(pid); return fd < 0 ? NULL : fdopen(fd, "r");
+    int fd = serve(pid); if (fd < 0) return NULL;
+    FILE *fp = fdopen(fd, "r"); if (fp && force_errno) errno = force_errno;
+    return fp;
 }
 FILE *__wrap_fopen64(const char *path, const char *mode) { return __wrap_fopen(path, mode); }
 int __wrap_open(const char *path, int flags, ...) {
@@ -92,8 +94,9 @@ static void *tworker(void *x) {
 static void handle(int nf, char **f, FILE *out) {
     /* filter / cfilter (through the chain walker) / filter0, cfilter0 (descriptor 0 closed during the call) /
        cfilter2 <arg> = "<hex1>+<hex2>" (two chain elements) / tfilter <arg> = "<hex>;<hex>;..." (one thread per argument, concurrently) */
-    int via_chain = !strncmp(f[0], "cfilter", 7), fd0 = f[0][strlen(f[0]) - 1] == '0', two = !strcmp(f[0], "cfilter2"), thr = !strcmp(f[0], "tfilter");
-    if ((!strcmp(f[0], "filter") || !strcmp(f[0], "filter0") || !strcmp(f[0], "cfilter") || !strcmp(f[0], "cfilter0") || two || thr) && (nf == 5 || nf == 6)) {
+    int via_chain = !strncmp(f[0], "cfilter", 7), fd0 = f[0][strlen(f[0]) - 1] == '0', two = !strcmp(f[0], "cfilter2"), thr = !strcmp(f[0], "tfilter"),
+        erange = f[0][strlen(f[0]) - 1] == 'E';      /* filterE / cfilterE: the caller's errno is ERANGE when the call is made */
+    if ((!strcmp(f[0], "filter") || !strcmp(f[0], "filter0") || !strcmp(f[0], "cfilter") || !strcmp(f[0], "cfilter0") || !strcmp(f[0], "filterE") || !strcmp(f[0], "cfilterE") || two || thr) && (nf == 5 || nf == 6)) {
         syn_self = strtol(f[2], 0, 10); syn_ppid = strtol(f[3], 0, 10);
         ntab = 0; nopened = 0; threaded = thr;
         if (strcmp(f[4], "[]")) {
@@ -121,7 +124,10 @@ static void handle(int nf, char **f, FILE *out) {
         int saved = -1;
         if (fd0) { saved = dup(0); close(0); }
         active = 1;
+        force_errno = erange ? ERANGE : 0;
+        errno = force_errno;
         int r = call_filter(via_chain, arg, plus ? &arg2 : 0);
+        force_errno = 0;
         active = 0;
         if (fd0 && saved >= 0) { dup2(saved, 0); close(saved); }
         fprintf(out, "ok\t%s\t", vname(r));
